@@ -13,6 +13,8 @@ sys.path.insert(0, os.path.dirname(os.path.abspath(__file__)))
 import base  # noqa: E402
 import dhcplib  # noqa: E402
 
+UNREPRESENTABLE = {0}  # configurations holding a value no wire field can carry
+
 CASES = [
     # (yaml for the vs0 interface + top level, expected subset)
     ("""---
@@ -100,7 +102,24 @@ def main():
         s.setsockopt(socket.IPPROTO_IPV6, socket.IPV6_MULTICAST_HOPS, 255)
         ifidx = int(sb.cns.run("cat /sys/class/net/vc0/ifindex").strip())
         for ci, (conf, want) in enumerate(CASES):
-            p = sb.start("erbium", conf, wait_http=("127.0.0.1", 9968), rust_log="warn")
+            try:
+                p = sb.start("erbium", conf, wait_http=("127.0.0.1", 9968), rust_log="warn")
+            except base.Inconclusive:
+                # "a configured value that the wire field cannot represent is rejected or clamped": configuration 0 asks for a
+                # router lifetime of 1 d (> 65535 s); a server that refuses to load it is within the property
+                pr = sb.procs[-1]
+                if ci in UNREPRESENTABLE and not pr.alive():
+                    leg.eval()
+                    leg.cls("conf%d|rejected-at-load" % ci)
+                    leg.count("configurations_rejected_at_load", 1)
+                    leg.sample({"config_rejected_at_load": ci, "log_tail": pr.text()[-200:]})
+                    pr.stop()
+                    # the same configuration with the value in range must then be served as written
+                    conf = conf.replace("lifetime: 1d", "lifetime: 18h")
+                    want = dict(want, router_lifetime=64800)
+                    p = sb.start("erbium", conf, wait_http=("127.0.0.1", 9968), rust_log="warn")
+                else:
+                    raise
             time.sleep(0.4)
             ra = None
             for attempt in range(3):
